@@ -457,7 +457,7 @@ _CLBSIG = 'cl03::blind::<impl schemes::generics::BlindSignature<schemes::algorit
 RESULT_BINDING_CL03 = {
     _CLSIG + 'sign': ['pk', 'sk', 'a_bases', 'message'],
     _CLSIG + 'sign_multiattr': ['pk', 'sk', 'a_bases', 'messages'],
-    _CLBSIG + 'blind_sign': ['pk', 'sk', 'zkpok'],
+    _CLBSIG + 'blind_sign': ['pk', 'sk', 'C', 'a_bases', 'revealed_messages', 'revealed_message_indexes'],
 }
 # "value unchanged" shortcuts are accepted only under an exact library equality of the two inputs
 _EXACT_EQ = ('core::slice::cmp::', 'std::cmp::PartialEq::eq', 'core::cmp::PartialEq::eq', 'std::vec::', 'alloc::vec::', 'core::array::equality::')
